@@ -42,7 +42,7 @@ def specs(T):
     T.body_contains(S, 'transfer_fields', 'bins_start = cnarr.start.iat[0]')
     T.body_contains(S, 'transfer_fields', 'bins_end = cnarr.end.iat[-1]')
     T.body_contains(S, 'transfer_fields', 'ignore = tuple(ignore) + params.ANTITARGET_ALIASES')
-    T.body_contains(S, 'transfer_fields', "iter_slices(cdata, segments.data, 'outer', True)")
+    T.body_contains(S, 'transfer_fields', 'for i, bin_idx in enumerate(iter_slices(cdata, segments.data, ')
     T.body_contains(S, 'transfer_fields', 'if seg_wt > 0:')
     if 'ignore=params.IGNORE_GENE_NAMES' not in T.func_source(S, 'transfer_fields'):
         raise T.Refuse('transfer_fields: default ignore is not params.IGNORE_GENE_NAMES')
@@ -50,7 +50,42 @@ def specs(T):
     T.body_contains('cnvlib/segmetrics.py', 'segment_mean', "if 'weight' in cnarr and cnarr['weight'].any():")
     T.body_contains('cnvlib/segfilters.py', 'squash_region', 'if region_weight > 0:')
     T.body_contains('cnvlib/segmentation/none.py', 'segment_none', 'segment_mean(cnarr)')
+    # --- haar: table assembly from the haarSeg result, haar's own arm split
+    H = 'cnvlib/segmentation/haar.py'
+    T.body_contains(H, 'segment_haar', 'chrom_tables = [one_chrom(subprobes, fdr_q, chrom) for chrom, subprobes in cnarr.by_arm()]')
+    T.body_contains(H, 'segment_haar', 'segarr = cnarr.as_dataframe(pd.concat(chrom_tables))')
+    T.body_contains(H, 'one_chrom', "results = haarSeg(cnarr.smooth_log2(), fdr_q, W=cnarr['weight'].values if 'weight' in cnarr else None)")
+    T.body_contains(H, 'one_chrom', "'start': cnarr['start'].values.take(results['start']), 'end': cnarr['end'].values.take(results['end']), "
+                                    "'log2': results['mean'], 'gene': '-', 'probes': results['size']")
+    T.body_contains(S, 'do_segmentation', "threshold = {'cbs': 0.0001, 'flasso': 0.0001, 'haar': 0.0001}.get(method)")
+    # --- the variants= path of the non-HMM methods
+    M = 'cnvlib/segmentation/hmm.py'
+    T.body_contains(S, '_do_segmentation', "if variants and (not method.startswith('hmm')):")
+    T.body_contains(S, '_do_segmentation', 'newsegs = [hmm.variants_in_segment(subvarr, segment) for segment, subvarr in variants.by_ranges(segarr)]')
+    T.body_contains(S, '_do_segmentation', 'segarr = segarr.as_dataframe(pd.concat(newsegs))')
+    T.body_contains(S, '_do_segmentation', "segarr['baf'] = variants.baf_by_ranges(segarr).values")
+    T.body_contains(M, 'variants_in_segment', 'if len(varr) > min_variants:')
+    T.body_contains(M, 'variants_in_segment', 'results = squash_by_groups(fake_cnarr, varr.as_series(states), by_arm=False)')
+    T.body_contains(M, 'variants_in_segment', 'if results is not None and len(results) > 1:')
+    T.body_contains(M, 'variants_in_segment', 'starts = np.concatenate([[segment.start], mid_breakpoints])')
+    T.body_contains(M, 'variants_in_segment', 'ends = np.concatenate([mid_breakpoints, [segment.end]])')
+    T.body_contains(M, 'variants_in_segment', "'log2': segment.log2, 'probes': results['probes']})")
+    T.body_contains(M, 'variants_in_segment', 'bad_segs_idx = dframe.start >= dframe.end')
+    T.body_contains(M, 'variants_in_segment', "'log2': segment.log2, 'probes': segment.probes}, index=[0])")
+    mm = re.search(r'mid_breakpoints = \(results\.start\.values\[1:\] \+ results\.end\.values\[:-1\]\) // ([0-9]+)\n',
+                   T.func_source(M, 'variants_in_segment'))
+    if not mm:
+        raise T.Refuse('variants_in_segment: mid_breakpoints = (results.start.values[1:] + results.end.values[:-1]) // <k> not found')
+    # --- the pool and the final table
+    T.body_contains(S, 'do_segmentation', 'with parallel.pick_pool(processes) as pool:')
+    T.body_contains(S, 'do_segmentation', 'rets = list(pool.map(_ds, (')
+    T.body_contains(S, 'do_segmentation', 'cna = cnarr.concat(rets)')
+    T.body_contains(G, 'GenomicArray.concat', 'table = pd.concat([otr.data for otr in others], ignore_index=True)')
+    T.body_contains(G, 'GenomicArray.concat', 'result.sort()')
+    T.body_contains(G, 'GenomicArray.sort', "sort_values(by=['_sort_key_', 'start', 'end'], kind='mergesort')")
     return {'SegDefaults': [
+        ('vseg_min_variants', 'Z', T.default(M, 'variants_in_segment', 'min_variants')),
+        ('vseg_mid_divisor', 'Z', int(mm.group(1))),
         ('by_arm_min_gap_size', 'Z', T.default(G, 'GenomicArray.by_arm', 'min_gap_size')),
         ('by_arm_min_arm_bins', 'Z', T.default(G, 'GenomicArray.by_arm', 'min_arm_bins')),
         ('by_arm_frac', 'Z * Z', (frac.numerator, frac.denominator)),
@@ -58,4 +93,7 @@ def specs(T):
         ('skip_low_default', 'bool', T.default(S, 'do_segmentation', 'skip_low')),
         ('skip_outliers_default', 'Z', T.default(S, 'do_segmentation', 'skip_outliers')),
         ('min_weight_default', 'Z', T.default(S, 'do_segmentation', 'min_weight')),
+        # transfer_fields: iter_slices(cdata, segments.data, <mode>, <keep_empty>)
+        ('transfer_slices_mode', 'string', T.call_arg(S, 'transfer_fields', 'iter_slices', 2)),
+        ('transfer_slices_keep_empty', 'bool', T.call_arg(S, 'transfer_fields', 'iter_slices', 3)),
     ]}
